@@ -15,3 +15,7 @@ def run(chk):
     tree_rules.settings_pushed_at_construction(chk, "C09")
     core_rules.outlay_rules(chk, "C09")
     core_rules.set_commissions_rules(chk, "C09")  # the same fee function nested and stand-alone
+    from .c05 import settings_reach_every_node
+
+    settings_reach_every_node(chk, "C09")  # the same position mode nested and stand-alone: it has to reach every security, attached at once or lazily
+    core_rules.refresh_before_trade(chk, "C09")  # inside a shadow copy only the parent pointer is reliable: trades there must refresh to the parent's date
